@@ -108,7 +108,24 @@ def do_run(name, checks):
     return 0
 
 
+def do_runall():
+    """re-runs every stored change against the check of its property (and the other checks recorded as detecting it)"""
+    import glob
+    bad = []
+    for mp in sorted(glob.glob(os.path.join(SEEDED, "*", "meta.json"))):
+        m = json.load(open(mp))
+        checks = [m["property"]] + sorted(c for c, v in m.get("checks", {}).items() if v.get("detected") and c != m["property"])
+        rc = do_run(m["name"], checks[:1])
+        m = json.load(open(mp))
+        if rc != 0 or not m["checks"].get(m["property"], {}).get("detected"):
+            bad.append(m["name"])
+    print("NOT DETECTED:", bad if bad else "none")
+    return 1 if bad else 0
+
+
 if __name__ == "__main__":
+    if sys.argv[1] == "runall":
+        sys.exit(do_runall())
     if sys.argv[1] == "import":
         sys.exit(do_import(sys.argv[2], sys.argv[3], sys.argv[4]))
     if sys.argv[1] == "run":
